@@ -402,7 +402,10 @@ def judge_trace(rec, who):
 
 # ---------------------------------------------------------------------------------------
 def _wc_expected_value(rec, idx, kind):
-    if kind == 'child':
+    if kind in ('child', 'oldchild'):
+        for c in rec['extra']['completions']:
+            if c[0] == ['c', idx] and c[1][0] != 'value':
+                return None
         return {'o': 'child-%s-out' % idx}
     for c in rec['extra']['completions']:
         if c[0] == idx and c[1][0] == 'value':
@@ -412,7 +415,7 @@ def _wc_expected_value(rec, idx, kind):
 
 def _wc_failures(rec, step):
     """Effective failing completions of the items registered in ``step``, in delivery order."""
-    regs = {(('c', idx) if kind == 'child' else idx): (key, kind) for key, idx, kind, _h in step['reg']}
+    regs = {(('c', idx) if kind in ('child', 'oldchild') else idx): (key, kind) for key, idx, kind, _h in step['reg']}
     out = []
     for c in rec['extra']['completions']:
         ident = tuple(c[0]) if isinstance(c[0], list) else c[0]
@@ -488,7 +491,7 @@ def judge_c10(rec, barrier_only=False):
             if not any(matches(f) for f in fails):
                 out.append(V('wrong-failure', 'wrong-failure:%s:%s' % (fails[0][1][0], shape),
                              'workchain EXCEPTED with %s, awaited failures were %s' % (exc, fails)))
-            elif len(fails) > 1 and not matches(fails[0]):
+            elif len(fails) > 1 and not matches(fails[0]) and not any(kind == 'oldchild' for _k, _i, kind, _h in st['reg']):
                 # only judged when every failure was delivered while the workchain was already waiting
                 idents = {f[0] for f in fails}
                 in_wait = all(a['state_before'] == 'waiting' for a in rec['acts'] if a['kind'] in ('complete', 'child')
